@@ -4,6 +4,7 @@ use crate::policy::{drain_add_obs, obs_str, DetHasher};
 use crate::rng::Rng;
 use crate::{csv, Out};
 use std::hash::{Hash, Hasher};
+use std::sync::atomic::{AtomicU64, Ordering};
 use std::sync::{Arc, Mutex};
 use std::thread::JoinHandle;
 use std::time::{Duration, Instant};
@@ -302,6 +303,40 @@ pub struct Blocked {
     pub id: u64,
     pub kind: &'static str,
     pub handle: JoinHandle<String>,
+    /// kernel thread id of the helper (0 = unknown)
+    pub tid: u64,
+}
+
+/// wait until a blocked helper has finished or has gone (back) to sleep for `grace_ms` without
+/// consuming CPU time: a deadline alone would misjudge a helper that is slow to be scheduled
+pub fn settled(b: &Blocked, grace_ms: u64) -> bool {
+    let t0 = Instant::now();
+    let mut asleep_since: Option<(Instant, u64)> = None;
+    loop {
+        if b.handle.is_finished() {
+            return true;
+        }
+        match if b.tid == 0 { None } else { thread_stat(b.tid) } {
+            Some(('S', ticks)) => match asleep_since {
+                Some((since, tk)) if tk == ticks => {
+                    if since.elapsed() > Duration::from_millis(grace_ms) {
+                        return false;
+                    }
+                }
+                _ => asleep_since = Some((Instant::now(), ticks)),
+            },
+            Some(_) => asleep_since = None,
+            None => {
+                if t0.elapsed() > Duration::from_millis(grace_ms * 20) {
+                    return false;
+                }
+            }
+        }
+        if t0.elapsed() > Duration::from_secs(20) {
+            return false;
+        }
+        std::thread::sleep(Duration::from_micros(200));
+    }
 }
 
 /// wait until the thread finishes, or `ms` elapse
@@ -318,17 +353,63 @@ pub fn finished_within(h: &JoinHandle<String>, ms: u64) -> bool {
     }
 }
 
-/// Run a possibly blocking call on a helper thread. Returns Ok(result) if it returned within the
-/// grace period, Err(handle) if it is (still) blocked.
-pub fn spawn_call<F>(f: F, grace_ms: u64) -> Result<String, JoinHandle<String>>
+/// scheduler state and CPU ticks of a thread of this process (from /proc), if it still exists
+fn thread_stat(tid: u64) -> Option<(char, u64)> {
+    let s = std::fs::read_to_string(format!("/proc/self/task/{}/stat", tid)).ok()?;
+    let rest = &s[s.rfind(')')? + 2..];
+    let f: Vec<&str> = rest.split_whitespace().collect();
+    let state = f.first()?.chars().next()?;
+    let ticks = f.get(11)?.parse::<u64>().ok()? + f.get(12)?.parse::<u64>().ok()?;
+    Some((state, ticks))
+}
+
+/// Run a possibly blocking call on a helper thread. Returns Ok(result) if it returned, Err(handle)
+/// if it is blocked. "Blocked" is decided from the helper thread's scheduler state, not from a
+/// deadline alone: the call counts as blocked only once the thread has been asleep (state S, no CPU
+/// time consumed) for the whole grace period, so a helper that is merely slow to be scheduled on a
+/// loaded machine is waited for.
+pub fn spawn_call<F>(f: F, grace_ms: u64) -> Result<String, (JoinHandle<String>, u64)>
 where
     F: FnOnce() -> String + Send + 'static,
 {
-    let h = std::thread::spawn(f);
-    if finished_within(&h, grace_ms) {
-        Ok(h.join().unwrap_or_else(|_| "PANIC".to_string()))
-    } else {
-        Err(h)
+    let tid = Arc::new(AtomicU64::new(0));
+    let tid2 = tid.clone();
+    let h = std::thread::spawn(move || {
+        let me = std::fs::read_link("/proc/thread-self")
+            .ok()
+            .and_then(|p| p.file_name().and_then(|n| n.to_str().map(|x| x.to_string())))
+            .and_then(|n| n.parse::<u64>().ok())
+            .unwrap_or(u64::MAX);
+        tid2.store(me, Ordering::SeqCst);
+        f()
+    });
+    let t0 = Instant::now();
+    let mut asleep_since: Option<(Instant, u64)> = None;
+    loop {
+        if h.is_finished() {
+            return Ok(h.join().unwrap_or_else(|_| "PANIC".to_string()));
+        }
+        let t = tid.load(Ordering::SeqCst);
+        let stat = if t == 0 || t == u64::MAX { None } else { thread_stat(t) };
+        match stat {
+            Some(('S', ticks)) => match asleep_since {
+                Some((since, tk)) if tk == ticks => {
+                    if since.elapsed() > Duration::from_millis(grace_ms) {
+                        return Err((h, t));
+                    }
+                }
+                _ => asleep_since = Some((Instant::now(), ticks)),
+            },
+            _ => asleep_since = None,
+        }
+        // no /proc information: fall back to a generous deadline
+        if t == u64::MAX && t0.elapsed() > Duration::from_millis(grace_ms * 20) {
+            return Err((h, 0));
+        }
+        if t0.elapsed() > Duration::from_secs(20) {
+            return Err((h, if t == u64::MAX { 0 } else { t }));
+        }
+        std::thread::sleep(Duration::from_micros(200));
     }
 }
 
@@ -497,9 +578,9 @@ impl<'a> Stepper<'a> {
         let c = self.rig.cache.clone();
         match spawn_call(move || crate::catch(|| res_str(c.try_remove(&key))).unwrap_or("PANIC".into()), self.grace_ms) {
             Ok(r) => self.emit(&format!("c.remove {} {} {}", idx, conf, id), &format!("ret={}", r)),
-            Err(h) => {
+            Err((h, tid)) => {
                 self.emit(&format!("c.remove {} {} {}", idx, conf, id), "ret=blocked");
-                self.blocked.push(Blocked { id, kind: "remove", handle: h });
+                self.blocked.push(Blocked { id, kind: "remove", handle: h, tid });
             }
         }
     }
@@ -510,9 +591,9 @@ impl<'a> Stepper<'a> {
         let c = self.rig.cache.clone();
         match spawn_call(move || crate::catch(|| res_str(c.wait())).unwrap_or("PANIC".into()), self.grace_ms) {
             Ok(r) => self.emit(&format!("c.wait {}", id), &format!("ret={}", r)),
-            Err(h) => {
+            Err((h, tid)) => {
                 self.emit(&format!("c.wait {}", id), "ret=blocked");
-                self.blocked.push(Blocked { id, kind: "wait", handle: h });
+                self.blocked.push(Blocked { id, kind: "wait", handle: h, tid });
             }
         }
     }
@@ -523,9 +604,9 @@ impl<'a> Stepper<'a> {
         let c = self.rig.cache.clone();
         match spawn_call(move || crate::catch(|| res_str(c.clear())).unwrap_or("PANIC".into()), self.grace_ms) {
             Ok(r) => self.emit(&format!("c.clear {}", id), &format!("ret={}", r)),
-            Err(h) => {
+            Err((h, tid)) => {
                 self.emit(&format!("c.clear {}", id), "ret=blocked");
-                self.blocked.push(Blocked { id, kind: "clear", handle: h });
+                self.blocked.push(Blocked { id, kind: "clear", handle: h, tid });
             }
         }
     }
@@ -536,9 +617,9 @@ impl<'a> Stepper<'a> {
         let c = self.rig.cache.clone();
         match spawn_call(move || crate::catch(|| res_str(c.close())).unwrap_or("PANIC".into()), self.grace_ms) {
             Ok(r) => self.emit(&format!("c.close {}", id), &format!("ret={}", r)),
-            Err(h) => {
+            Err((h, tid)) => {
                 self.emit(&format!("c.close {}", id), "ret=blocked");
-                self.blocked.push(Blocked { id, kind: "close", handle: h });
+                self.blocked.push(Blocked { id, kind: "close", handle: h, tid });
             }
         }
     }
@@ -557,7 +638,7 @@ impl<'a> Stepper<'a> {
     pub fn reap(&mut self, grace_ms: u64) {
         let mut i = 0;
         while i < self.blocked.len() {
-            if finished_within(&self.blocked[i].handle, grace_ms) {
+            if settled(&self.blocked[i], grace_ms.min(25)) {
                 let b = self.blocked.remove(i);
                 let r = b.handle.join().unwrap_or_else(|_| "PANIC".to_string());
                 self.emit(&format!("c.ret {} {}", b.kind, b.id), &format!("ret={}", r));
@@ -575,7 +656,7 @@ impl<'a> Stepper<'a> {
                 let (inc, samples) = drain_add_obs();
                 // a remover blocked on the full buffer completes its send as soon as a slot is free
                 for b in self.blocked.iter().filter(|b| b.kind == "remove") {
-                    finished_within(&b.handle, 300);
+                    settled(b, 25);
                 }
                 let inc = match (&d, inc) {
                     (_, Some(i)) => i,
@@ -673,7 +754,7 @@ impl<'a> Stepper<'a> {
                 let stopped = self.rig.worker.step_stop(Duration::from_millis(ms.max(300)));
                 // the closer sets the policy's closed flag right after the rendezvous: let it finish
                 for b in self.blocked.iter().filter(|b| b.kind == "close") {
-                    finished_within(&b.handle, 500);
+                    settled(b, 25);
                 }
                 self.emit("w.stop", &format!("ok={}", stopped as u8));
                 self.reap(300);
